@@ -347,7 +347,7 @@ class CallMixin:
         for i, r in enumerate(c.requires):
             if variants is None:
                 g = self.eval_spec(r, env, st, old_heap=st.heap, old_env=env)
-                self.oblige("pre", "%s#%d" % (qual, i), g, st, node, info={"callee": qual, "clause": r})
+                self.oblige_split("pre", "%s#%d" % (qual, i), g, st, node, info={"callee": qual, "clause": r})
             else:
                 # the heap is an if-then-else merge of two branches: prove the precondition on each branch separately
                 # (each branch state is one in which the clause has usually been established literally)
@@ -356,7 +356,7 @@ class CallMixin:
                     sv.heap = hv
                     sv.path.append(cnd)
                     g = self.eval_spec(r, env, sv, old_heap=hv, old_env=env)
-                    self.oblige("pre", "%s#%d[%s]" % (qual, i, tag), g, sv, node, info={"callee": qual, "clause": r})
+                    self.oblige_split("pre", "%s#%d[%s]" % (qual, i, tag), g, sv, node, info={"callee": qual, "clause": r})
                 # the clause itself, in the merged state, for the code that follows
                 g = self.eval_spec(r, env, st, old_heap=st.heap, old_env=env)
                 self.assume(z3.Implies(zbool(self.live(st)), g), st)
